@@ -141,7 +141,7 @@ theorem invS_observeTerm {N s s' n t} (h : InvS N s) (hs : step N s (.observeTer
   split at hs
   · rename_i hg
     injection hs with hs; subst hs
-    refine invS_frame' h rfl rfl rfl (fun m hm _ => hm) (nodeS_setNode (nodeS_adopt _ _ hg.2)) ?_ ?_
+    refine invS_frame' h rfl rfl rfl (fun m hm _ => hm) (nodeS_setNode (nodeS_adopt _ _ hg)) ?_ ?_
     · intro k; by_cases hk : k = n
       · subst hk; simp
       · rw [setNode_nodes_ne _ _ hk]
@@ -275,7 +275,7 @@ theorem invS_sendAppend {N s s' n dst prev k} (h : InvS N s) (hl : InvL N s)
   simp only [step] at hs
   split at hs
   · rename_i hg
-    obtain ⟨_, _, _, hrole, _⟩ := hg
+    obtain ⟨_, _, hrole, _⟩ := hg
     injection hs with hs; subst hs
     have hlog := hl.ldr_log n hrole
     refine invS_addMsg h (fun _ _ _ _ hm => by cases hm) ?_ (fun _ _ _ _ _ _ _ hm => by cases hm)
@@ -291,7 +291,7 @@ theorem invS_sendSnapshot {N s s' n dst k} (h : InvS N s) (hl : InvL N s)
   simp only [step] at hs
   split at hs
   · rename_i hg
-    obtain ⟨_, _, _, hrole, _⟩ := hg
+    obtain ⟨_, _, hrole, _⟩ := hg
     injection hs with hs; subst hs
     have hlog := hl.ldr_log n hrole
     refine invS_addMsg h (fun _ _ _ _ hm => by cases hm) (fun _ _ _ _ _ _ _ hm => by cases hm) ?_
@@ -1139,7 +1139,7 @@ theorem invS_recvAppend {N s s' n m} (h : InvS N s) (he : InvE N s) (hl : InvL N
   · rename_i t ldr dst prev prevTerm es c
     split at hs
     · rename_i hg
-      obtain ⟨hnN, rfl, hmem⟩ := hg
+      obtain ⟨rfl, hmem⟩ := hg
       split at hs
       · injection hs with hs; subst hs
         exact invS_frame' h rfl rfl rfl (fun m hm _ => List.mem_of_mem_erase hm) (fun k => NodeS.refl _) (fun _ => rfl) (fun _ => rfl)
@@ -1206,7 +1206,7 @@ theorem invS_recvSnapshot {N s s' n m} (h : InvS N s) (he : InvE N s) (hl : InvL
   · rename_i t ldr dst k kTerm c pfx
     split at hs
     · rename_i hg
-      obtain ⟨hnN, rfl, hmem⟩ := hg
+      obtain ⟨rfl, hmem⟩ := hg
       split at hs
       · injection hs with hs; subst hs
         exact invS_frame' h rfl rfl rfl (fun m hm _ => List.mem_of_mem_erase hm) (fun k => NodeS.refl _) (fun _ => rfl) (fun _ => rfl)
@@ -1268,6 +1268,32 @@ end PSO.Raft
 
 namespace PSO.Raft
 
+theorem invS_restart {N s s' n c a} (h : InvS N s) (hl : InvL N s)
+    (hs : step N s (.restart n c a) = some s') : InvS N s' := by
+  simp only [step] at hs
+  split at hs
+  · rename_i hg
+    injection hs with hs; subst hs
+    refine invS_frame h rfl rfl rfl (fun m hm _ => hm) (nodeS_setNode ⟨rfl, Nat.le_refl _, Or.inr rfl⟩) ?_ ?_ ?_
+    · intro k; by_cases hk : k = n
+      · subst hk; simp; have := h.cm_lt k; omega
+      · rw [setNode_nodes_ne _ _ hk]; exact h.cm_lt k
+    · intro k f hr
+      by_cases hk : k = n
+      · subst hk; simp at hr
+      · rw [setNode_nodes_ne _ _ hk] at hr ⊢; exact h.match_le k f hr
+    · intro k; by_cases hk : k = n
+      · subst hk
+        simp only [setNode_nodes_self]
+        have hc := h.cm_lt k
+        refine cmt_prefix (h.C1 k) ?_ (take_ne_nil_of_lt (by omega)) ?_
+        · have : (s.nodes k).log.take (c + 1) = ((s.nodes k).log.take ((s.nodes k).commit + 1)).take (c + 1) := by
+            rw [List.take_take]; congr 1; omega
+          rw [this]; exact List.take_prefix _ _
+        · rw [List.getElem?_take]; simp; exact hl.log_sent k
+      · rw [setNode_nodes_ne _ _ hk]; exact cmt_frame rfl rfl (Nat.le_refl _) (h.C1 k)
+  · cases hs
+
 theorem invS_init (N : Nat) : InvS N init := by
   constructor <;> simp [init, Cmt, OwnPos, sentinel]
   · intro t t' i htt ht'0 htpos hi
@@ -1292,6 +1318,7 @@ theorem invS_step {N : Nat} {s s' : State} {a : Action} (h : InvS N s) (he : Inv
   | sendSnapshot n dst k => exact invS_sendSnapshot h hl hs
   | recvSnapshot n m => exact invS_recvSnapshot h he hl hA hs
   | lose m => exact invS_lose h hs
+  | restart n c a => exact invS_restart h hl hs
 
 theorem inv_init (N : Nat) : Inv N init :=
   ⟨invE_init N, invL_init N, fun n => by simp [init], invS_init N⟩
